@@ -179,7 +179,7 @@ func (u *Universe) declFun(name string, decl string) {
 }
 
 func (u *Universe) tagOf(t types.Type) int {
-	k := types.TypeString(t, nil)
+	k := canonType(t)
 	if n, ok := u.tags[k]; ok {
 		return n
 	}
@@ -310,17 +310,39 @@ func (u *Universe) structSort(name string, st *types.Struct) Sort {
 
 // typeKey is the canonical name of a Go type used to partition heaps (type-based alias separation).
 func typeKey(t types.Type) string {
+	return sanitize(canonType(t))
+}
+
+// canonType prints a type with every alias resolved (types.TypeString keeps alias names,
+// which would split one Go type over several heaps).
+func canonType(t types.Type) string {
 	t = types.Unalias(t)
-	if b, ok := t.(*types.Basic); ok {
-		switch b.Kind() {
+	switch tt := t.(type) {
+	case *types.Basic:
+		switch tt.Kind() {
 		case types.Uint8:
 			return "uint8"
 		case types.Int32, types.UntypedRune:
 			return "int32"
 		}
-		return b.Name()
+		return tt.Name()
+	case *types.Pointer:
+		return "*" + canonType(tt.Elem())
+	case *types.Slice:
+		return "[]" + canonType(tt.Elem())
+	case *types.Array:
+		return fmt.Sprintf("[%d]%s", tt.Len(), canonType(tt.Elem()))
+	case *types.Map:
+		return "map[" + canonType(tt.Key()) + "]" + canonType(tt.Elem())
+	case *types.Chan:
+		return "chan " + canonType(tt.Elem())
+	case *types.Named:
+		if tt.Obj().Pkg() != nil {
+			return tt.Obj().Pkg().Path() + "." + tt.Obj().Name() + typeArgsString(tt)
+		}
+		return tt.Obj().Name()
 	}
-	return sanitize(types.TypeString(t, nil))
+	return types.TypeString(t, nil)
 }
 
 func (u *Universe) elemHeapT(t types.Type) (string, Sort) {
